@@ -690,6 +690,11 @@ fn mode_prelude(r: &mut Rng, out: &mut Vec<u8>) {
     }
     if r.chance(1, 12) {
         out.extend_from_slice(b"\x1b[?5h");
+        // reverse video with a plain, non-reverse pen: the pen equals CharOpts::default()
+        // while the blank of the screen does not
+        if r.chance(1, 2) {
+            out.extend_from_slice(if r.chance(1, 2) { b"\x1b[27m" as &[u8] } else { b"\x1b[0;27m" });
+        }
     }
 }
 
@@ -1279,7 +1284,7 @@ pub fn api_op(r: &mut Rng, g: Geo, focus: Focus) -> Op {
 
 pub fn resize_target(r: &mut Rng, g: Geo, cur: Geo) -> (u32, u32) {
     // (lines, columns); the envelope is 140x40 unless the run started on a bigger screen
-    let (cap_l, cap_c) = (g.lines.max(40), g.cols.max(140));
+    let (cap_l, cap_c) = (g.lines.max(40) + 6, g.cols.max(140) + 6);
     match r.below(12) {
         0 => (cur.lines, cur.cols),
         1 => (1, 1),
@@ -1308,7 +1313,11 @@ pub fn trace(prop: &str, seed: u64, index: u64, p: &Profile) -> Trace {
     let mut rl = root.fork("line");
     let mut rs = root.fork("scheduler");
 
-    let g = geometry(&mut rg, p.small_geo_pct);
+    let mut g = geometry(&mut rg, p.small_geo_pct);
+    if p.focus == Focus::Resize && rg.chance(1, 25) {
+        // resize-centred runs: more tall / wide screens (row and column tables past 64 entries)
+        g = Geo { cols: *rg.pick(&[20u32, 80, 129, 192, 200]), lines: *rg.pick(&[65u32, 66, 70, 100, 129]) };
+    }
     let chars = rc.chance(p.chars_pct as u64, 100);
     let utf8 = !rc.chance(p.eightbit_pct as u64, 100);
     let switching = !chars && rc.chance(p.switch_pct as u64, 100);
